@@ -15,7 +15,7 @@ result; CCompile = result for accepted programs).  A rejected trace is a
 violation reproduced on the real code; its key (stage + top frames of the
 stack / recursion cycle / first gcc error) is looked up in KNOWN_FINDINGS.txt.
 """
-import base64, glob, json, os, re, shutil, threading, time
+import base64, glob, gzip, json, os, re, shutil, threading, time
 import vlib
 from vlib import ToolingError
 
@@ -305,7 +305,7 @@ def report(ctx, name, rejected, traces, fails):
             text[:1200].decode("utf-8", "replace") + ("...[%d more bytes]" % (len(text) - 1200) if len(text) > 1200 else ""))
         rep = {"key": key, "stage": fl["stage"], "outcome": fl["outcome"], "msg": fl["msg"], "stack": fl.get("stack", ""),
                "count": len(fs), "origin": w["origin"], "events": w["ev"], "siblings": w.get("sib"),
-               "source_b64": base64.b64encode(text).decode() if len(text) < 2000000 else None,
+               "source_gz_b64": base64.b64encode(gzip.compress(text, 6)).decode(),
                "source_head": text[:4000].decode("utf-8", "replace"),
                "other_origins": sorted({f["origin"] for f in fs})[:20]}
         ctx.violation(what, rep)
@@ -364,6 +364,9 @@ def run(ctx, only_sources=None):
         cid = json.dumps(ex.context, sort_keys=True)
         cid = contexts.setdefault(cid, "c%d" % len(contexts))
         deepseqs += [(o, cid, toks) for o, toks in ex.tokens if "nest" in o]
+    if not th:
+        # each costs seconds (a gigabyte of stack is grown before it overflows): a seeded sample in the quick tier
+        deepseqs = ctx.rng.sample(sorted(deepseqs), min(8, len(deepseqs)))
     ctx.log("TLC exported %d token sequences (+%d deep) from %d configurations" % (len(seqs), len(deepseqs), len(exps) + len(deep)))
     gendir = ctx.subdir("gen")
     nestp = os.path.join(gendir, "nest.json")
@@ -471,7 +474,7 @@ def replay(ctx, path):
     root = prepare_root(ctx, bins)
     d = ctx.subdir("replay")
     p = os.path.join(d, "w.wuffs")
-    data = base64.b64decode(rep["source_b64"]) if rep.get("source_b64") else rep["source_head"].encode()
+    data = gzip.decompress(base64.b64decode(rep["source_gz_b64"]))
     open(p, "wb").write(data)
     srcp = os.path.join(d, "s.ndjson")
     s = {"id": 1, "o": "replay", "sib": rep.get("siblings") or []}
